@@ -6,8 +6,8 @@ From QRB Require Import Meta.Regex Gen.Regex Model.WArgs Model.Wfe Pg.Lexer Mode
 Import ListNotations.
 Local Open Scope string_scope.
 
-Definition valid_ident (s : string) : bool := re_match ident_re s.
-Definition valid_type (s : string) : bool := re_match type_re s.
+Definition valid_ident (s : string) : bool := re_match minterm_table ident_re s.
+Definition valid_type (s : string) : bool := re_match minterm_table type_re s.
 
 Definition err_text (e : ekind * string) : string :=
   match fst e with
@@ -50,7 +50,7 @@ Definition show_result (r : result nat) : string :=
 
 Definition show_token (t : token) : string :=
   match t with
-  | TWord s => "W" ++ hex s | TQIdent s => "Q" ++ hex s | TUIdent s => "U" ++ hex s
+  | TWord s _ => "W" ++ hex s | TRun s _ => "O" ++ hex s | TQIdent s => "Q" ++ hex s | TUIdent s => "U" ++ hex s
   | TStr s => "S" ++ hex s | TNum s => "N" ++ hex s | TParam s => "P" ++ hex s | TOp s => "O" ++ hex s
   | TSelf c => "C" ++ hex (String c "") | TCast => "::" | TDotDot => ".." | TColonEq => ":="
   | TBad c => "B" ++ hex (String c "")
